@@ -35,6 +35,7 @@ GEN = ["Zorks", "Trifeet", "Zelsius", "MPS", "NM", "M3", "InvS", "RootHz", "Feet
 LIB_PT = {"kelvins": "au::kelvins_pt", "celsius": "au::celsius_pt", "fahrenheit": "au::fahrenheit_pt",
           "meters": "au::meters_pt"}
 SWEEP_UNITS = ["meters", "celsius", "unos", "gen.MPS", "gen.Feet3", "gen.KiloM"]
+SWEEP_UNITS_THOROUGH = ["fahrenheit", "gen.In5_7", "gen.Zelsius", "gen.MperM"]
 POINT_UNITS = ["kelvins", "celsius", "fahrenheit", "meters", "gen.Zelsius", "gen.MPS"]
 
 
@@ -59,11 +60,22 @@ ITEMS = [n + s for n in CMP for s in (":q_op_ZERO", ":ZERO_op_q")] + [
     "q+ZERO", "q-ZERO", "ZERO+q", "ZERO-q", "q+ZERO==q", "q-ZERO==q", "q+=ZERO", "q-=ZERO"]
 FORMS = [("copy-init", "Q q = ZERO"), ("list-init", "Q q{ZERO}"), ("direct-init", "Q q(ZERO)"), ("copy-init-Zero", "Q q = Zero{}"),
          ("constexpr", "constexpr Q q = ZERO"), ("assign", "q = ZERO"), ("argument", "pass ZERO to f(Q)"),
-         ("rep_cast-ZERO", "Q q = rep_cast<R>(ZERO)"), ("functional-cast", "Q(ZERO)"), ("static_cast", "static_cast<Q>(ZERO)"),
+         ("functional-cast", "Q(ZERO)"), ("static_cast", "static_cast<Q>(ZERO)"),
          ("array", "Q arr[2] = {ZERO, ZERO}"), ("member-init", "struct { Q m = ZERO; }"),
          ("rep_cast-int32", "rep_cast<int32_t>(Q(ZERO))"), ("rep_cast-double", "rep_cast<double>(Q(ZERO))"),
-         ("rep_cast-ZERO-all-reps", "Quantity<U,R2> = rep_cast<R2>(ZERO) for all 11 R2"), ("in-maker", "Q(ZERO).in(maker)"),
-         ("return", "return ZERO from a function returning Q"), ("assign-rep_cast", "q = rep_cast<R>(ZERO)")]
+         ("in-maker", "Q(ZERO).in(maker)"), ("return", "return ZERO from a function returning Q"),
+         ("conditional", "cond ? q : ZERO and cond ? ZERO : q"), ("const-ref", "const Q &r = ZERO"),
+         ("new", "new Q(ZERO)")]
+# `rep_cast<R>(ZERO)` is not in the statement: recorded (own records), never a violation
+RC_FORMS = [("rep_cast-ZERO", "Q q = rep_cast<R>(ZERO)"), ("assign-rep_cast", "q = rep_cast<R>(ZERO)"),
+            ("rep_cast-ZERO-all-reps", "Quantity<U,R2> = rep_cast<R2>(ZERO) for all 11 R2")]
+# comparisons (on the stored values 0, 1, R(-1), R(-0), lowest (ints) / quiet NaN) and additions (on 0, 1, R(-1)) evaluated in
+# constant expressions
+CX_ITEMS = [n + s for n in CMP for s in (":q_op_ZERO", ":ZERO_op_q")] + ["q+ZERO", "q-ZERO", "ZERO+q", "ZERO-q", "(q+ZERO)==q"]
+# ZERO seen from a scaled sibling unit: always exactly 0
+XU_ITEMS = ["coerce_in(u*3)", "coerce_in(u/3)", "coerce_in(u*5/7)", "coerce_as(u/3).in(u/3)", "in<double>(u*3)",
+            "in<long double>(u*5/7)", "as<R>(u/3).in(u/3)", "coerce_in<float>(u*5/7)",
+            "fp:in(u*3)", "fp:as(u*5/7).in(u*5/7)", "fp:in(u*pi)", "fp:coerce_in(u*pi)", "fp:Quantity<u*3,R> = Q(ZERO)"]
 FORM_IDS = [f[0] for f in FORMS]
 
 HARNESS = C13_HARNESS + r'''
@@ -84,21 +96,109 @@ template <class R, class Mk> unsigned long long forms(Mk mk) {
     constexpr Q q4 = au::ZERO; constexpr R v4 = q4.in(U{}); C19_Z(v4)
     Q q5 = mk(static_cast<R>(7)); q5 = au::ZERO; C19_Z(q5.in(U{}))
     Q q6 = RetZero<Q>::id(au::ZERO); C19_Z(q6.in(U{}))
-    Q q7 = au::rep_cast<R>(au::ZERO); C19_Z(q7.in(U{}))
     C19_Z(Q(au::ZERO).in(U{}))
     C19_Z(static_cast<Q>(au::ZERO).in(U{}))
     const Q arr[2] = {au::ZERO, au::ZERO}; C19_Z(arr[0].in(U{}) + arr[1].in(U{}))
     struct S { Q m = au::ZERO; } s; C19_Z(s.m.in(U{}))
     C19_Z(au::rep_cast<std::int32_t>(Q(au::ZERO)).in(U{}))
     C19_Z(au::rep_cast<double>(Q(au::ZERO)).in(U{}))
+    C19_Z(Q(au::ZERO).in(mk))
+    C19_Z(RetZero<Q>::get().in(U{}))
+    { volatile bool f = false; const Q q7 = mk(static_cast<R>(7)); C19_Z((f ? q7 : au::ZERO).in(U{}) + (f ? au::ZERO : q7).in(U{}) - 7) }
+    const Q &r16 = au::ZERO; C19_Z(r16.in(U{}))
+    { Q *p = new Q(au::ZERO); const R v = p->in(U{}); delete p; C19_Z(v) }
+    return bad;
+}
+
+// `rep_cast<R>(ZERO)` (not in the statement; recorded only)
+template <class R, class Mk> unsigned long long rc(Mk mk) {
+    using U = typename Mk::Unit; using Q = au::Quantity<U, R>;
+    unsigned long long bad = 0; int i = 0;
+    Q q7 = au::rep_cast<R>(au::ZERO); C19_Z(q7.in(U{}))
+    Q q17 = mk(static_cast<R>(7)); q17 = au::rep_cast<R>(au::ZERO); C19_Z(q17.in(U{}))
     C19_Z((zero_as<U, std::int8_t>() && zero_as<U, std::uint8_t>() && zero_as<U, std::int16_t>() && zero_as<U, std::uint16_t>() &&
            zero_as<U, std::int32_t>() && zero_as<U, std::uint32_t>() && zero_as<U, std::int64_t>() && zero_as<U, std::uint64_t>() &&
            zero_as<U, float>() && zero_as<U, double>() && zero_as<U, long double>()) ? 0 : 1)
-    C19_Z(Q(au::ZERO).in(mk))
-    C19_Z(RetZero<Q>::get().in(U{}))
-    Q q17 = mk(static_cast<R>(7)); q17 = au::rep_cast<R>(au::ZERO); C19_Z(q17.in(U{}))
     return bad;
 }
+
+// comparisons with / additions of ZERO evaluated in constant expressions; expected = the raw operator on (x, 0) at run time
+template <class R, bool I = std::is_integral<R>::value> struct CxSpecial { static constexpr R get() { return std::numeric_limits<R>::lowest(); } };
+template <class R> struct CxSpecial<R, false> { static constexpr R get() { return std::numeric_limits<R>::quiet_NaN(); } };
+// the 12 comparison verdicts as a bit set (bit order of CX_ITEMS): with ZERO through Au (usable in constant expressions) ...
+template <class Q> constexpr unsigned cmp_bits_zero(Q a) {
+    return (unsigned)(a == au::ZERO) | (unsigned)(au::ZERO == a) << 1 | (unsigned)(a != au::ZERO) << 2 | (unsigned)(au::ZERO != a) << 3 |
+           (unsigned)(a < au::ZERO) << 4 | (unsigned)(au::ZERO < a) << 5 | (unsigned)(a <= au::ZERO) << 6 | (unsigned)(au::ZERO <= a) << 7 |
+           (unsigned)(a > au::ZERO) << 8 | (unsigned)(au::ZERO > a) << 9 | (unsigned)(a >= au::ZERO) << 10 | (unsigned)(au::ZERO >= a) << 11;
+}
+// ... and with the literal 0 on the raw value (evaluated at run time)
+template <class R> unsigned cmp_bits_raw(R x) {
+    return (unsigned)(x == 0) | (unsigned)(0 == x) << 1 | (unsigned)(x != 0) << 2 | (unsigned)(0 != x) << 3 |
+           (unsigned)(x < 0) << 4 | (unsigned)(0 < x) << 5 | (unsigned)(x <= 0) << 6 | (unsigned)(0 <= x) << 7 |
+           (unsigned)(x > 0) << 8 | (unsigned)(0 > x) << 9 | (unsigned)(x >= 0) << 10 | (unsigned)(0 >= x) << 11;
+}
+template <class G, class W> bool same_val(G g, W w) { return c13::Same<G, W>::eq(g, w); }
+template <class R, class Mk> unsigned long long cx(Mk) {
+    using U = typename Mk::Unit; using Q = au::Quantity<U, R>;
+    unsigned long long bad = 0;
+    constexpr R x0 = R(0), x1 = R(1), x2 = R(-1), x3 = R(-R(0)), x4 = CxSpecial<R>::get();
+    constexpr Q a0 = Mk{}(x0), a1 = Mk{}(x1), a2 = Mk{}(x2), a3 = Mk{}(x3), a4 = Mk{}(x4);
+    volatile R y0 = x0, y1 = x1, y2 = x2, y3 = x3, y4 = x4;   // the oracle side is evaluated at run time, on the raw values
+    const R w0 = y0, w1 = y1, w2 = y2, w3 = y3, w4 = y4, z = 0;
+    constexpr unsigned m0 = cmp_bits_zero(a0), m1 = cmp_bits_zero(a1), m2 = cmp_bits_zero(a2), m3 = cmp_bits_zero(a3),
+                       m4 = cmp_bits_zero(a4), mz = cmp_bits_zero(Q(au::ZERO));
+    bad |= (m0 ^ cmp_bits_raw<R>(w0)) | (m1 ^ cmp_bits_raw<R>(w1)) | (m2 ^ cmp_bits_raw<R>(w2)) | (m3 ^ cmp_bits_raw<R>(w3)) |
+           (m4 ^ cmp_bits_raw<R>(w4)) | (mz ^ cmp_bits_raw<R>(w0));
+    int i = 12;
+    { constexpr auto s1 = a1 + au::ZERO; constexpr auto s2 = a2 + au::ZERO;
+      if (!same_val(s1.in(U{}), w1 + z) || !same_val(s2.in(U{}), w2 + z)) bad |= 1ull << i; ++i; }
+    { constexpr auto s1 = a1 - au::ZERO; constexpr auto s2 = a2 - au::ZERO;
+      if (!same_val(s1.in(U{}), w1 - z) || !same_val(s2.in(U{}), w2 - z)) bad |= 1ull << i; ++i; }
+    { constexpr auto s1 = au::ZERO + a1; constexpr auto s2 = au::ZERO + a2;
+      if (!same_val(s1.in(U{}), z + w1) || !same_val(s2.in(U{}), z + w2)) bad |= 1ull << i; ++i; }
+    { constexpr auto s0 = au::ZERO - a0; constexpr auto s1 = au::ZERO - a1;     // 0 - 1 is defined for every rep (wraps for unsigned 32/64)
+      if (!same_val(s0.in(U{}), z - w0) || !same_val(s1.in(U{}), z - w1)) bad |= 1ull << i; ++i; }
+    { constexpr bool e = ((a0 + au::ZERO) == a0) && ((a1 + au::ZERO) == a1) && ((a2 - au::ZERO) == a2);
+      if (!e) bad |= 1ull << i; ++i; }
+    return bad;
+}
+
+// ZERO seen from scaled sibling units (forcing conversions for every rep; policy-checked ones for floating reps)
+template <class R, class Mk, bool FP = std::is_floating_point<R>::value> struct XuFp { static unsigned long long go(int) { return 0; } };
+template <class R, class Mk> struct XuFp<R, Mk, true> {
+    static unsigned long long go(int i) {
+        using U = typename Mk::Unit; using Q = au::Quantity<U, R>;
+        using U3 = decltype(U{} * au::mag<3>()); using U57 = decltype(U{} * au::mag<5>() / au::mag<7>());
+        using UPi = decltype(U{} * au::Magnitude<au::Pi>{});
+        unsigned long long bad = 0;
+        C19_Z(Q(au::ZERO).in(U3{}))
+        C19_Z(Q(au::ZERO).as(U57{}).in(U57{}))
+        C19_Z(Q(au::ZERO).in(UPi{}))
+        C19_Z(Q(au::ZERO).coerce_in(UPi{}))
+        { au::Quantity<U3, R> q = Q(au::ZERO); C19_Z(q.in(U3{})) }
+        return bad;
+    }
+};
+template <class R, class Mk> unsigned long long xu(Mk) {
+    using U = typename Mk::Unit; using Q = au::Quantity<U, R>;
+    using U3 = decltype(U{} * au::mag<3>()); using U_3 = decltype(U{} / au::mag<3>()); using U57 = decltype(U{} * au::mag<5>() / au::mag<7>());
+    unsigned long long bad = 0; int i = 0;
+    C19_Z(Q(au::ZERO).coerce_in(U3{}))
+    C19_Z(Q(au::ZERO).coerce_in(U_3{}))
+    C19_Z(Q(au::ZERO).coerce_in(U57{}))
+    C19_Z(Q(au::ZERO).coerce_as(U_3{}).in(U_3{}))
+    C19_Z(Q(au::ZERO).template in<double>(U3{}))
+    C19_Z(Q(au::ZERO).template in<long double>(U57{}))
+    C19_Z(Q(au::ZERO).template as<R>(U_3{}).in(U_3{}))
+    C19_Z(Q(au::ZERO).template coerce_in<float>(U57{}))
+    return bad | XuFp<R, Mk>::go(i);
+}
+
+// is this converted scalar / duration exactly zero?
+template <class T> struct IsZ { static bool z(T x) { return x == T(0) && !(x != T(0)); } };
+template <class R, class P> struct IsZ<std::chrono::duration<R, P>> {
+    static bool z(std::chrono::duration<R, P> x) { return x.count() == 0 && x == std::chrono::duration<R, P>::zero(); } };
+template <class T> bool isz(T x) { return IsZ<T>::z(x); }
 
 // bitmask of items on which ZERO does not behave like the literal 0 for the stored value x
 template <class R, class Mk> unsigned long long one(Mk mk, R x, unsigned long long *truth = nullptr) {
@@ -163,49 +263,156 @@ def unit_record(rid, u, rep):
         'vf_i("forms", (long long)c19::forms<R>(%s)); vf_i("items", (long long)c19::mini<R>(%s));' % (u.maker, u.maker)])
 
 
+AUX_KINDS = {"cx": CX_ITEMS, "xu": XU_ITEMS, "rc": [f[0] for f in RC_FORMS]}
+
+
+def aux_record(rid, u, kind, reps):
+    """One record per (unit, kind): cx = constant-expression comparisons/additions, xu = cross-unit zero, rc = rep_cast<R>(ZERO).
+    Kept apart from unit_record so that a failure to compile is attributed to exactly this family of forms."""
+    return (rid, ['vf_i("m_%s", (long long)c19::%s<%s>(%s));' % (r.replace(" ", "_"), kind, r, u.maker) for r in reps])
+
+
 ARITH = ["bool", "char", "signed char", "unsigned char", "wchar_t", "char16_t", "char32_t", "short", "unsigned short",
          "int", "unsigned int", "long", "unsigned long", "long long", "unsigned long long",
          "int8_t", "uint8_t", "int16_t", "uint16_t", "int32_t", "uint32_t", "int64_t", "uint64_t", "float", "double",
          "long double"]
+ARITH20 = ["char8_t"]                                   # only exists from C++20 on
+NON_ARITH_INFO = ["__int128", "unsigned __int128"]      # std::is_arithmetic is false for them under -std=c++NN: recorded only
 CHRONO = ["std::chrono::nanoseconds", "std::chrono::microseconds", "std::chrono::milliseconds", "std::chrono::seconds",
           "std::chrono::minutes", "std::chrono::hours"]
+CHRONO20 = ["std::chrono::days", "std::chrono::weeks", "std::chrono::months", "std::chrono::years"]
+CHRONO_EXTRA = ["std::chrono::duration<int, std::nano>", "std::chrono::duration<unsigned, std::micro>",
+                "std::chrono::duration<long long, std::ratio<60>>", "std::chrono::duration<short, std::ratio<1, 60>>"]
 PERIODS = ["std::ratio<1>", "std::milli", "std::ratio<3600>", "std::ratio<1, 3>", "std::ratio<86400 * 7>"]
 
+# (form id, statement(s) declaring x<i>, expression that must be exactly zero).  Every one is an implicit or explicit *conversion*
+# of ZERO to T (copy-init, direct-init, list-init, casts, reference binding, return, argument, assignment, cv-qualified targets).
+SC_FORMS = [
+    ("copy-init", "T x0 = au::ZERO;", "x0"),
+    ("constexpr", "constexpr T x1 = au::ZERO;", "x1"),
+    ("argument", "const T x2 = c19::RetZero<T>::id(au::ZERO);", "x2"),
+    ("assign", "T x3(static_cast<T>(1)); x3 = au::ZERO;", "x3"),
+    ("list-init", "T x4{au::ZERO};", "x4"),
+    ("direct-init", "T x5(au::ZERO);", "x5"),
+    ("static_cast", "T x6 = static_cast<T>(au::ZERO);", "x6"),
+    ("const-ref", "const T &x7 = au::ZERO;", "x7"),
+    ("return", "T x8 = c19::RetZero<T>::get();", "x8"),
+    ("const", "const T x9 = au::ZERO;", "x9"),
+    ("functional-cast", "T x10 = T(au::ZERO);", "x10"),
+    ("c-cast", "T x11 = (T)au::ZERO;", "x11"),
+    ("array", "T x12[2] = {au::ZERO, au::ZERO};", "x12[0]) && c19::isz<T>(x12[1]"),
+    ("member-init", "struct S13 { T m = au::ZERO; } x13;", "x13.m"),
+    ("constexpr-list-init", "constexpr T x14{au::ZERO};", "x14"),
+    ("constexpr-static_cast", "constexpr T x15 = static_cast<T>(au::ZERO);", "x15"),
+    ("new", "T *p16 = new T(au::ZERO); const T x16 = *p16; delete p16;", "x16"),
+]
+SC_FORMS_ARITH_ONLY = [("volatile", "volatile T x17 = au::ZERO;", "x17")]    # duration's members are not volatile-qualified
+SC_TRAITS = ("std::is_convertible<au::Zero, T>::value && std::is_convertible<const au::Zero &, T>::value && "
+             "std::is_constructible<T, au::Zero>::value && std::is_assignable<T &, au::Zero>::value")
 
-def scalar_records(first_rid, r11):
+
+def sc_forms(t):
+    return SC_FORMS + ([] if "chrono" in t else SC_FORMS_ARITH_ONLY)
+
+
+def sc_form_ids(t):
+    return [f[0] for f in sc_forms(t)] + ["traits"]
+
+
+def scalar_record(rid, t, only=None):
+    """All conversion contexts for target type t (or just the form `only`): mask bit i = form i did not give exactly zero."""
+    fs = sc_forms(t)
+    st = ["using T = %s; unsigned long long bad = 0;" % t]
+    for i, (fid, decl, z) in enumerate(fs):
+        if only is None or only == fid:
+            st.append("{ %s if (!(c19::isz<T>(%s))) bad |= 1ull << %d; }" % (decl, z, i))
+    if only is None or only == "traits":
+        st.append("if (!(%s)) bad |= 1ull << %d;" % (SC_TRAITS, len(fs)))
+    st.append('vf_i("mask", (long long)bad);')
+    return (rid, st)
+
+
+def scalar_targets(r11, std):
+    ts = list(ARITH) + (ARITH20 if std == "c++20" else [])
+    ts += list(CHRONO) + (CHRONO20 if std == "c++20" else []) + CHRONO_EXTRA
+    ts += ["std::chrono::duration<%s, %s>" % (r, p) for r in r11 for p in PERIODS]
+    return ts
+
+
+def scalar_records(first_rid, r11, std="c++14"):
     recs, meta = [], {}
     rid = first_rid
-    for t in ARITH:
-        recs.append((rid, ["using T = %s; T x = au::ZERO; constexpr T c = au::ZERO; const T y = c19::RetZero<T>::id(au::ZERO); T w = static_cast<T>(1); w = au::ZERO;" % t,
-                           'vf_b("zero", x == T(0) && c == T(0) && y == T(0) && w == T(0) && std::is_convertible<au::Zero, T>::value);']))
-        meta[rid] = "T=%s" % t
-        rid += 1
-    durs = list(CHRONO) + ["std::chrono::duration<%s, %s>" % (r, p) for r in r11 for p in PERIODS]
-    for t in durs:
-        recs.append((rid, ["using T = %s; T x = au::ZERO; constexpr T c = au::ZERO; const T y = c19::RetZero<T>::id(au::ZERO); T w(1); w = au::ZERO;" % t,
-                           'vf_b("zero", x.count() == 0 && x == T::zero() && c.count() == 0 && y.count() == 0 && w.count() == 0 && '
-                           'std::is_convertible<au::Zero, T>::value);']))
+    for t in scalar_targets(r11, std):
+        recs.append(scalar_record(rid, t))
         meta[rid] = "T=%s" % t
         rid += 1
     return recs, meta
 
 
-# negative side: contexts that require a *point*; each rejected form has an accepted twin with a Quantity
-def point_probes(u, rep):
+def info_record(rid):
+    """Types that are integer-like but not std::is_arithmetic under the strict -std=c++NN configurations: recorded, not judged
+    (the statement promises 'every arithmetic type'); should is_arithmetic be true, convertibility is demanded."""
+    st = []
+    for i, t in enumerate(NON_ARITH_INFO):
+        st.append('vf_b("arith%d", std::is_arithmetic<%s>::value); vf_b("conv%d", std::is_convertible<au::Zero, %s>::value);' % (i, t, i, t))
+    return (rid, st)
+
+
+# negative side: contexts that require a *point*; each rejected form has an accepted twin with a Quantity.
+# third field: True = the Quantity twin is one of the statement's own verbs (initialise / convert / compare), so a rejected twin is
+# a violation; False = the twin (min/max/clamp with ZERO) is not promised by the statement, a rejected twin is only counted.
+PROBE_PREAMBLE = UNITS_PREAMBLE + "\n#include <vector>\n#include <algorithm>\n"
+_PT_FORMS = [("copy-init", "{T} x = au::ZERO; (void)x;", True),
+             ("direct-init", "{T} x{{au::ZERO}}; (void)x;", True),
+             ("assign", "auto x = {M}; x = au::ZERO; (void)x;", True),
+             ("argument", "auto f = []({T}) {{}}; f(au::ZERO);", True),
+             ("return", "auto f = []() -> {T} {{ return au::ZERO; }}; (void)f;", True),
+             ("paren-init", "{T} x(au::ZERO); (void)x;", True),
+             ("functional-cast", "(void){T}(au::ZERO);", True),
+             ("static_cast", "(void)static_cast<{T}>(au::ZERO);", True),
+             ("member-init", "struct S {{ {T} m = au::ZERO; }} s; (void)s;", True),
+             ("array", "{T} arr[1] = {{au::ZERO}}; (void)arr;", True),
+             ("conditional", "auto x = {M}; bool c = true; auto y = c ? x : au::ZERO; (void)y;", True),
+             ("conditional-rev", "auto x = {M}; bool c = true; auto y = c ? au::ZERO : x; (void)y;", True),
+             ("const-ref", "const {T} &r = au::ZERO; (void)r;", True),
+             ("assign-braced", "auto x = {M}; x = {{au::ZERO}}; (void)x;", True),
+             ("new", "auto *p = new {T}(au::ZERO); delete p;", True),
+             # (`std::vector<P> v{ZERO}` is deliberately absent: it does not *require* a point — vector(size_type) with ZERO -> size_t
+             # is a legitimate reading once the deleted QuantityPoint(Zero) is not in the overload set)
+             ("vector-push_back", "std::vector<{T}> v; v.push_back(au::ZERO);", True),
+             ("std-min", "auto x = {M}; (void)std::min<{T}>(x, au::ZERO);", True),
+             ("min", "auto x = {M}; (void)min(x, au::ZERO);", False),
+             ("min-rev", "auto x = {M}; (void)min(au::ZERO, x);", False),
+             ("max", "auto x = {M}; (void)max(x, au::ZERO);", False),
+             ("max-rev", "auto x = {M}; (void)max(au::ZERO, x);", False),
+             ("clamp-lo", "auto x = {M}; (void)clamp(x, au::ZERO, x);", False),
+             ("clamp-hi", "auto x = {M}; (void)clamp(x, x, au::ZERO);", False),
+             ("clamp-v", "auto x = {M}; (void)clamp(au::ZERO, x, x);", False)]
+for _n, _op in (("eq", "=="), ("ne", "!="), ("lt", "<"), ("le", "<="), ("gt", ">"), ("ge", ">=")):
+    _PT_FORMS.append(("x%sZERO" % _op, "auto x = {M}; (void)(x %s au::ZERO);" % _op, True))
+    _PT_FORMS.append(("ZERO%sx" % _op, "auto x = {M}; (void)(au::ZERO %s x);" % _op, True))
+PT_DEMANDED_TWIN = {n: d for n, _, d in _PT_FORMS}
+# ZERO as a *displacement* next to a point (outside the statement): verdicts are recorded so that a flip shows in the evidence.
+PT_INFO_FORMS = [("p-ZERO", "auto x = {M}; (void)(x - au::ZERO);", "reject"), ("p+ZERO", "auto x = {M}; (void)(x + au::ZERO);", "accept"),
+                 ("ZERO+p", "auto x = {M}; (void)(au::ZERO + x);", "accept"), ("ZERO-p", "auto x = {M}; (void)(au::ZERO - x);", "reject"),
+                 ("p+=ZERO", "auto x = {M}; x += au::ZERO;", "accept"), ("p-=ZERO", "auto x = {M}; x -= au::ZERO;", "accept")]
+
+
+def _pq(u, rep):
     P, Q = "au::QuantityPoint<%s, %s>" % (u.cpp, rep), "au::Quantity<%s, %s>" % (u.cpp, rep)
     pm, qm = "%s(static_cast<%s>(1))" % (u.ptmaker, rep), "%s(static_cast<%s>(1))" % (u.maker, rep)
-    forms = [("copy-init", "{T} x = au::ZERO; (void)x;"),
-             ("direct-init", "{T} x{{au::ZERO}}; (void)x;"),
-             ("assign", "auto x = {M}; x = au::ZERO; (void)x;"),
-             ("argument", "auto f = []({T}) {{}}; f(au::ZERO);"),
-             ("return", "auto f = []() -> {T} {{ return au::ZERO; }}; (void)f;")]
-    for name, op in (("eq", "=="), ("ne", "!="), ("lt", "<"), ("le", "<="), ("gt", ">"), ("ge", ">=")):
-        forms.append(("x%sZERO" % op, "auto x = {M}; (void)(x %s au::ZERO);" % op))
-        forms.append(("ZERO%sx" % op, "auto x = {M}; (void)(au::ZERO %s x);" % op))
-    out = []
-    for name, tpl in forms:
-        out.append((name, tpl.format(T=P, M=pm), tpl.format(T=Q, M=qm)))
-    return out
+    return P, Q, pm, qm
+
+
+def point_probes(u, rep):
+    P, Q, pm, qm = _pq(u, rep)
+    return [(name, tpl.format(T=P, M=pm), tpl.format(T=Q, M=qm)) for name, tpl, _ in _PT_FORMS]
+
+
+def point_info_probes(u, rep):
+    """(name, code, verdict seen on the tree this check was written against) — never judged."""
+    P, Q, pm, qm = _pq(u, rep)
+    return [(name, tpl.format(T=P, M=pm), usual) for name, tpl, usual in PT_INFO_FORMS]
 
 
 def sweep_tu(path, units, r11, w):
